@@ -223,25 +223,46 @@ def op_to_meshtet(m, rng):
     return M, {}
 
 
+def rand_line(rng):
+    """(MeshLine1, sorted list of its cells as (a, b)): nonnegative integer points in random numbering; some consecutive
+    intervals are cells (gaps allowed), some points are used by no cell, some interior points exist twice"""
+    from skfem import MeshLine1
+    lv = np.cumsum(rng.integers(1, 4, size=int(rng.integers(2, 6)))).astype(float)
+    cells = [(lv[i], lv[i + 1]) for i in range(len(lv) - 1) if rng.random() < 0.75]
+    if not cells:
+        cells = [(lv[0], lv[1])]
+    pts, t = [], []
+    for a, b in cells:
+        ia = pts.index(a) if a in pts and rng.random() < 0.6 else (pts.append(a) or len(pts) - 1)   # repeated point now and then
+        ib = pts.index(b) if b in pts and rng.random() < 0.6 else (pts.append(b) or len(pts) - 1)
+        t.append((ia, ib) if rng.random() < 0.7 else (ib, ia))
+    for _ in range(int(rng.integers(0, 3))):
+        pts.append(float(lv[-1] + rng.integers(1, 9)))                                           # unused points
+    perm = rng.permutation(len(pts))
+    p = np.empty(len(pts))
+    p[perm] = pts
+    tt = perm[np.array(t, dtype=np.int64).T]
+    order = rng.permutation(tt.shape[1])
+    return MeshLine1(np.array([p]), tt[:, order].astype(np.int32)), sorted(cells)
+
+
 def op_extrude(m, rng):
     """MeshTri1 * MeshLine1 -> MeshWedge1"""
-    from skfem import MeshLine1
-    z = np.cumsum(rng.integers(1, 4, size=int(rng.integers(2, 5)))).astype(float)
-    zz = rng.permutation(z)
-    M = m * MeshLine1(np.array([zz]))
+    line, cells = rand_line(rng)
+    M = m * line
     what = 'extrude'
-    nt, nvx = m.t.shape[1], m.p.shape[1]
+    nt = m.t.shape[1]
     need(type(M).__name__ == 'MeshWedge1', what + ':class', type(M).__name__)
-    need(M.t.shape[1] == nt * (len(z) - 1) and M.p.shape[1] == nvx * len(z), what + ':counts', '')
+    need(M.t.shape[1] == nt * len(cells), what + ':counts', f'{M.t.shape[1]} prisms for {nt} triangles x {len(cells)} cells')
     check_valid(M, what)
     ma, mb = measures(m), measures(M)
-    for l in range(len(z) - 1):
+    for l, (a, b) in enumerate(cells):
         for k in range(nt):
             tri = cols(m.p, m.t[:, k])
-            want = tuple(v + (F(z[l]),) for v in tri) + tuple(v + (F(z[l + 1]),) for v in tri)
+            want = tuple(v + (F(a),) for v in tri) + tuple(v + (F(b),) for v in tri)
             need(cols(M.p, M.t[:, k + l * nt]) == want, what + ':prism-geometry', f'prism {k}+{l}*nt')
-            need(mb[k + l * nt] == ma[k] * (F(z[l + 1]) - F(z[l])), what + ':measure', '')
-    return M, {'z': zz.tolist()}
+            need(mb[k + l * nt] == ma[k] * (F(b) - F(a)), what + ':measure', '')
+    return M, {'line': {'p': line.p.tolist(), 't': line.t.tolist()}}
 
 
 def op_join(m, rng):
@@ -348,6 +369,67 @@ def op_to_meshtri_unused(m, rng):
     return None, {}
 
 
+def op_line_product(_m, rng):
+    """MeshLine1 * MeshLine1: exactly the products of two cells"""
+    lx, cx = rand_line(rng)
+    ly, cy = rand_line(rng)
+    M = lx * ly
+    what = 'line-product'
+    want = {frozenset({(F(a), F(c)), (F(b), F(c)), (F(b), F(d)), (F(a), F(d))}) for a, b in cx for c, d in cy}
+    got = cell_points(M, range(M.t.shape[1]))
+    need(got == want and M.t.shape[1] == len(want), what + ':cells', f'{M.t.shape[1]} quadrilaterals, expected {len(want)}')
+    check_valid(M, what)
+    return None, {}
+
+
+def op_join_second_order(base, rng):
+    """+ and remove_duplicate_nodes on second-order meshes: every local node of every cell keeps its coordinates, merged
+    nodes are exactly the coordinate-equal ones, none is unused; @ refuses higher-order meshes"""
+    import skfem
+    name2 = {'MeshTri1': 'MeshTri2', 'MeshQuad1': 'MeshQuad2', 'MeshTet1': 'MeshTet2', 'MeshHex1': 'MeshHex2'}[type(base).__name__]
+    cls = getattr(skfem, name2)
+    m = cls.from_mesh(base)
+    dv = [0.0] * m.p.shape[0]
+    dv[0] = float(m.p[0].max() - m.p[0].min())
+    o = m.translated(dv)
+    M = m + o
+    what = 'join:' + name2
+    need(type(M) is cls, what + ':class', type(M).__name__)
+    ed, eo, EM = m.dofs.element_dofs, o.dofs.element_dofs, M.dofs.element_dofs
+    n1 = m.t.shape[1]
+    need(EM.shape == (ed.shape[0], n1 + o.t.shape[1]), what + ':shape', f'{EM.shape}')
+    distinct = {tuple(c) for c in np.hstack((m.p, o.p)).T.tolist()}
+    need(M.p.shape[1] == len(distinct) and len({tuple(c) for c in M.p.T.tolist()}) == len(distinct), what + ':node-count',
+         f'{M.p.shape[1]} nodes, {len(distinct)} distinct coordinate tuples')
+    need(len(np.unique(EM)) == M.p.shape[1], what + ':unused-node', '')
+    for k in range(EM.shape[1]):
+        src, e, kk = (m, ed, k) if k < n1 else (o, eo, k - n1)
+        need({tuple(c) for c in M.p[:, EM[:, k]].T.tolist()} == {tuple(c) for c in src.p[:, e[:, kk]].T.tolist()},
+             what + ':node-geometry', f'cell {k}')
+        need(np.array_equal(M.p[:, M.t[:, k]], src.p[:, src.t[:, kk]]) or name2 == 'MeshTri2', what + ':vertex-geometry', f'cell {k}')
+    # remove_duplicate_nodes: the two meshes stacked WITHOUT merging, tagged, then merged
+    st = cls(np.hstack((m.p, o.p)), np.hstack((ed, eo + m.p.shape[1])))
+    sub, bnd = rand_tags(st, rng, oriented=True)
+    st = st.with_subdomains(sub).with_boundaries(bnd)
+    R = st.remove_duplicate_nodes()
+    what = 'remove_duplicate_nodes:' + name2
+    ES, ER = st.dofs.element_dofs, R.dofs.element_dofs
+    need(R.p.shape[1] == len(distinct) and len(np.unique(ER)) == R.p.shape[1], what + ':node-count', f'{R.p.shape[1]} nodes')
+    for k in range(ES.shape[1]):
+        need({tuple(c) for c in R.p[:, ER[:, k]].T.tolist()} == {tuple(c) for c in st.p[:, ES[:, k]].T.tolist()},
+             what + ':node-geometry', f'cell {k}')
+    for nm, b in (st.boundaries or {}).items():
+        if R.boundaries is None or nm not in R.boundaries:
+            continue
+        need(facet_points(R, R.boundaries[nm]) == facet_points(st, b), what + ':boundary', nm)
+    try:
+        m @ o
+        need(False, 'matmul:higher-order-accepted:' + name2, '@ of second-order meshes must raise NotImplementedError')
+    except NotImplementedError:
+        pass
+    return None, {}
+
+
 def op_join_unused_left(m, rng):
     """m + other and m @ [other] where the LEFT operand has unused trailing points (as the parts returned by @ have)"""
     from dataclasses import replace
@@ -435,17 +517,17 @@ def op_extrude_unused(m, rng):
     from skfem import MeshLine1
     extra = 80.0 + rng.integers(0, 9, size=(2, int(rng.integers(1, 3))))
     mu = replace(m, doflocs=np.hstack((m.p, extra)))
-    z = np.cumsum(rng.integers(1, 4, size=int(rng.integers(2, 4)))).astype(float)
-    M = mu * MeshLine1(np.array([z]))
+    line, cells = rand_line(rng)
+    M = mu * line
     what = 'extrude-unused'
     nt = m.t.shape[1]
-    need(M.t.shape[1] == nt * (len(z) - 1) and M.t.max() < M.p.shape[1], what + ':counts', '')
-    for l in range(len(z) - 1):
+    need(M.t.shape[1] == nt * len(cells) and M.t.max() < M.p.shape[1], what + ':counts', '')
+    for l, (a, b) in enumerate(cells):
         for k in range(nt):
             tri = cols(m.p, m.t[:, k])
-            want = tuple(v + (F(z[l]),) for v in tri) + tuple(v + (F(z[l + 1]),) for v in tri)
+            want = tuple(v + (F(a),) for v in tri) + tuple(v + (F(b),) for v in tri)
             need(cols(M.p, M.t[:, k + l * nt]) == want, what + ':prism-geometry', f'prism {k}+{l}*nt')
-    return None, {'z': z.tolist()}
+    return None, {'line': {'p': line.p.tolist(), 't': line.t.tolist()}}
 
 
 def with_unused(m, rng):
